@@ -68,6 +68,83 @@ def crash(topo, cfg, culprit, kind, stage):
     return h
 
 
+def crash_async(cfg, kind):
+    """an agent (generator simulator) is in the middle of an asynchronous get_data() request to A - mosaik's query to A is
+    outstanding - when an unconnected third simulator X fails"""
+    def h(eng):
+        import mosaik
+        from vk.kernels import c16
+        from vk.sysrun import CTX
+        K = cfg.get('K', 2)
+        nreq = 2 * K + 1
+        fi = eng.int('fault_at', 0, nreq - 1)
+        st = {'n': 0, 'fired': None}
+
+        def fault(proxy, sid, f, when, r=None):
+            if sid != 'X' or f not in ('setup_done', 'step', 'get_data'):
+                return r
+            if when == 'before':
+                idx = st['n']
+                st['n'] += 1
+                st['cur'] = idx
+                if st['fired'] is None and bool(fi == idx):
+                    st['fired'] = (idx, f)
+                return r
+            if st['fired'] is not None and st['fired'][0] == st.get('cur') and not st.get('raised'):
+                st['raised'] = True
+                raise make_exc(kind)
+            return r
+        loop = sysrun.OracleLoop(eng)
+        log = []
+        mon = c16.Monitor(eng, ['B'], {'B'})
+        CTX.clear()
+        CTX.update(eng=eng, loop=loop, K=K, until=cfg.get('until', 2), ref=None, log=log, sync=set(cfg.get('sync', ())), hook=None, mon=mon,
+                   targets={}, requests_per_step=1, bounded_times=True, no_get=False, fault=fault)
+        outcome = None
+        with sysrun.patched():
+            w = mosaik.World({'S': {'python': 'vk.sysrun:SymSim'}, 'G': {'python': 'vk.kernels.c16:AgentSim'}}, skip_greetings=True,
+                             asyncio_loop=loop, cache=cfg.get('cache', False))
+            try:
+                a = w.start('S', sim_id='A', typ='time-based').M()
+                b = w.start('G', sim_id='B', typ='time-based').M()
+                w.start('S', sim_id='X', typ='time-based').M()
+                w.connect(a, b, async_requests=True)
+                loop.active = True
+                try:
+                    w.run(until=cfg.get('until', 2), print_progress=False, lazy_stepping=cfg.get('lazy', True))
+                    outcome = 'done'
+                except sysrun.Deadlock:
+                    outcome = 'deadlock'
+                except sysrun.Livelock:
+                    outcome = 'livelock'
+                except Exception as e:  # noqa
+                    outcome = 'exc:' + type(e).__name__
+                finally:
+                    loop.active = False
+            finally:
+                if not loop.is_closed():
+                    loop.close()
+        fp = ['async', kind]
+        desc = f"agent B with async requests to A, X fails ({kind}) at request {st['fired']} sync={cfg.get('sync')} cache={cfg.get('cache', False)}"
+        if st['fired'] is None:
+            return ('nofault:' + str(outcome), {'nontrivial': False})
+        if outcome in ('deadlock', 'livelock'):
+            eng.alarm('C14.hang', f'run() {outcome} after the fault: {desc}', {'fp': fp})
+        elif outcome == 'done':
+            eng.alarm('C14.silent', f'run() completed normally although a simulator failed: {desc}', {'fp': fp})
+        for sid in ('A', 'B'):
+            fin = [i for i, x in enumerate(log) if x[0] == 'finalize' and x[1] == sid]
+            eng.check(len(fin) == 1, 'C14.finalize', f'{sid} was finalized {len(fin)} times: {desc}', {'fp': fp})
+            if fin:
+                later = [x for x in log[fin[0] + 1:] if x[1] == sid and x[0] in ('step', 'get_data', 'setup_done')]
+                eng.check(not later, 'C14.after_stop', f'{sid} received {later[:3]} after finalize: {desc}', {'fp': fp})
+        eng.check(loop.is_closed(), 'C14.loop', f'event loop not closed after run(): {desc}', {'fp': fp})
+        leaked = loop.leaked or []
+        eng.check(not leaked, 'C14.leak', f'{len(leaked)} unfinished task(s) when the loop was closed: {sorted(leaked)[:4]}: {desc}', {'fp': fp})
+        return (outcome, {'nontrivial': True, 'fired': st['fired'], 'leaked': len(leaked)})
+    return h
+
+
 def jobs(tier):
     q = tier == 'quick'
     cur = {t['name']: t for t in T.curated()}
@@ -98,4 +175,10 @@ def jobs(tier):
                             cfg.update({'no_self': ['A', 'B'], 'until': 2, 'K': 3})
                         out.append({'id': f"{name}|{culprit}|{kind}|{stage}|sync={''.join(sync) or '-'}|lazy={int(lazy)}", 'harness': 'vk.kernels.c14:crash',
                                     'params': {'topo': t, 'cfg': cfg, 'culprit': culprit, 'kind': kind, 'stage': stage}, 'budget_s': 300})
+    for kind in ('raise', 'reset') + (() if q else ('eof', 'typeerr')):
+        for sync in ([[], ['B'], ['X']] if q else [[], ['A'], ['B'], ['X'], ['A', 'B', 'X']]):
+            for cache in (False,) + (() if q else (True,)):
+                cfg = {'until': 2, 'K': 2, 'cache': cache, 'lazy': True, 'sync': sync}
+                out.append({'id': f"asyncreq|{kind}|sync={''.join(sync) or '-'}|cache={int(cache)}", 'harness': 'vk.kernels.c14:crash_async',
+                            'params': {'cfg': cfg, 'kind': kind}, 'budget_s': 300, 'split_depth': 16 if not sync else None})
     return out
